@@ -1027,6 +1027,36 @@ def probe_failtest():
     return None
 
 
+def probe_fork_close():
+    """close_mode: closing one fork runner leaves the registry entry of another fork runner in place."""
+    import labtech.runners.process as P
+    from labtech.runners import ForkRunnerBackend
+    from labtech.storage import NullStorage
+    reg = getattr(P, '_RUNNER_FORK_MEMORY', None)
+    if not isinstance(reg, dict):
+        return None
+    before = set(reg)
+    a = ForkRunnerBackend().build_runner(context={}, storage=NullStorage(), max_workers=1)
+    b = ForkRunnerBackend().build_runner(context={}, storage=NullStorage(), max_workers=1)
+    try:
+        mine = set(reg) - before
+        if len(mine) != 2:
+            return None
+        b.close()
+        left = set(reg) - before
+        if len(left) == 1:
+            return 'CloseOwn'
+        if len(left) == 0:
+            return 'CloseAll'
+        return None
+    finally:
+        for r in (a, b):
+            try:
+                r.close()
+            except Exception:   # noqa
+                pass
+
+
 def probe_view():
     """view_mode: under the fork backend, does a worker forked after the in-memory results have been empty once still see the
     results of its dependencies?  (One worker; an independent task finishes first and its result is released at once.)"""
@@ -1090,6 +1120,7 @@ def all_probes():
     out['failtest'] = _limited(probe_failtest)
     out['lq'] = _limited(probe_log_queue)
     out['binding'] = _limited(probe_ctx_binding)
+    out['close'] = _limited(probe_fork_close)
     out['scope'] = _limited(probe_scope)
     out.update(_limited(probe_storage) or {})
     r = _limited(probe_cache) or (None, None)
